@@ -25,17 +25,17 @@ theorem updateFrom_cases (a b : Min) : Min.updateFrom a b = a ∨ Min.updateFrom
       · right; exact congrArg some (Nat.min_eq_right h)
 
 section
-variable {inst : Instance} {P : Nat → Prop} {dom : List Nat} {lvl : Nat → Nat} {cfg : Cfg}
+variable {inst : Instance} {P : Nat → Prop} {dom : List Nat} {lvl : Nat → Nat} {fx : Bool} {cfg : Cfg}
 
 /-- the bookkeeping of `solve_goal` after the loop -/
-theorem finishGoal_sem {s0 : St} {g : Nat} {sub : Min} {s3 : St}
-    (hp : LoopPost inst P dom lvl s0 g sub s3) (m : Min) (v : V) (m' : Min) (s' : St)
+theorem finishGoal_sem (h3 : cfg.fixF3 = true) {s0 : St} {g : Nat} {sub : Min} {s3 : St}
+    (hp : LoopPost inst P dom lvl fx s0 g sub s3) (m : Min) (v : V) (m' : Min) (s' : St)
     (h : finishGoal cfg m s0.stack.length s0.graph.length sub s3 = .ok (v, m') s') :
-    Inv inst P dom lvl s' ∧ Step inst P s0 s' m' ∧ MinLe m' m ∧ Fact inst P s0 s' m' g v ∧
+    Inv inst P dom lvl fx s' ∧ Step inst P s0 s' m' ∧ MinLe m' m ∧ Fact inst P s0 s' m' g v ∧
       LinkOK lvl s' (lvl g) s0.graph.length m m' := by
-  obtain ⟨st', s1, old, cur, new, A, hfl, hg3, hlen3, hget3, R3⟩ := hp
+  obtain ⟨st', s1, old, cur, new, new3, A, hcase, hg3, hlen3, hget3, R3⟩ := hp
   have hg4 : updateNode (fun n => { n with links := sub, stackDepth := none }) s0.graph.length s3.graph =
-      s0.graph ++ (⟨g, cur, none, sub⟩ : Node) :: new := by
+      s0.graph ++ (⟨g, cur, none, sub⟩ : Node) :: new3 := by
     rw [hg3, updateNode_mid]
   have hpop : s0.stack.length + 1 = s3.stack.length := hlen3.symm
   simp only [finishGoal, pop, hpop, if_true, hg4, mid_at] at h
@@ -49,6 +49,11 @@ theorem finishGoal_sem {s0 : St} {g : Nat} {sub : Min} {s3 : St}
   have hslen : s3.stack.dropLast.length = s0.stack.length := by
     rw [List.length_dropLast]; omega
   have hle : MinLe (Min.updateFrom m sub) m := updateFrom_le_left m sub
+  have hfl' : cur ≠ .ambig → ¬ flagAt s1.stack s0.stack.length ∨ old = cur := by
+    intro hne
+    cases hcase with
+    | inl h1 => exact h1.2
+    | inr h1 => exact absurd h1.2 hne
   -- the link of the result, for any final graph that keeps the old graph as a prefix
   have hlink : ∀ sF : St, (∃ r, sF.graph = s0.graph ++ r) →
       LinkOK lvl sF (lvl g) s0.graph.length m (Min.updateFrom m sub) := by
@@ -71,6 +76,14 @@ theorem finishGoal_sem {s0 : St} {g : Nat} {sub : Min} {s3 : St}
         · exact ⟨n', by rw [hr]; exact getElem?_prefix h1.2, hle'⟩
         · omega
         · omega
+  -- the reported fact, once the node is gone from the graph
+  have hfact : ∀ (sF : St), sF.interrupted = s1.interrupted → (cur ≠ .ambig → Holds P cur g) →
+      Fact inst P s0 sF (Min.updateFrom m sub) g cur := by
+    intro sF hiF hcorr
+    rcases A.cur_val with hc | hc | hc
+    · exact Or.inl ⟨hc, Or.inl (hcorr (by rw [hc]; exact topOf_ne_ambig inst g))⟩
+    · exact Or.inr (Or.inl ⟨hc, hcorr (by rw [hc]; exact botOf_ne_ambig inst g), hlow hc⟩)
+    · exact Or.inr (Or.inr ⟨hc, by rw [hiF]; exact A.amb hc⟩)
   by_cases hge : Min.ge sub s0.graph.length = true
   · cases hc1 : s1.cache with
     | none =>
@@ -80,75 +93,99 @@ theorem finishGoal_sem {s0 : St} {g : Nat} {sub : Min} {s3 : St}
       subst hv; subst hm'; subst hs'
       have Pp : Popped s0 s1 { keptSt s3 s0.graph with cache := none } :=
         ⟨hslen, hsget, hc1.symm, R3.oracle, R3.oracleDefault, R3.interrupted⟩
-      obtain ⟨i6, hs6, hcorr⟩ := A.finish_discard (s6 := { keptSt s3 s0.graph with cache := none }) Pp hfl
+      obtain ⟨i6, hs6, hcorr⟩ := A.finish_discard (s6 := { keptSt s3 s0.graph with cache := none }) Pp hfl'
         ((minGe_iff _ _).mp hge) rfl
-      refine ⟨i6, hs6 _, hle, ?_, hlink _ ⟨[], by simp [keptSt]⟩⟩
-      cases A.cur_val with
-      | inl hc => exact Or.inl ⟨hc, Or.inl hcorr⟩
-      | inr hc => exact Or.inr ⟨hc, hcorr, hlow hc⟩
+      exact ⟨i6, hs6 _, hle, hfact _ R3.interrupted hcorr, hlink _ ⟨[], by simp [keptSt]⟩⟩
     | some cc1 =>
-    have hint : s3.interrupted = false := by rw [R3.interrupted]; exact A.i1.quiet.2.2
     have hc3 : s3.cache = some cc1 := by rw [R3.cache]; exact hc1
-    have hand : (cfg.fixF3 && s3.interrupted) = false := by rw [hint]; simp
-    simp only [hge, if_true, hc3, hand, Bool.false_eq_true, if_false, moveToCache,
-      List.drop_left, List.take_left] at h
-    cases hdr : drainToCache s0.graph.length ((⟨g, cur, none, sub⟩ : Node) :: new) cc1 with
-    | error site => rw [hdr] at h; cases h
-    | ok cc6 =>
-      rw [hdr] at h
-      simp only [Res.ok.injEq, Prod.mk.injEq] at h
+    by_cases hint : s3.interrupted = true
+    · have hand : (cfg.fixF3 && s3.interrupted) = true := by rw [hint, h3]; rfl
+      simp only [hge, if_true, hc3, hand, rollbackTo, List.take_left, Res.ok.injEq, Prod.mk.injEq] at h
       obtain ⟨⟨hv, hm'⟩, hs'⟩ := h
       subst hv; subst hm'; subst hs'
-      have Pp : Popped s0 s1 { cachedSt s3 s0.graph cc6 with cache := s1.cache } :=
-        ⟨hslen, hsget, rfl, R3.oracle, R3.oracleDefault, R3.interrupted⟩
-      obtain ⟨i6, hs6, hcorr⟩ := A.finish_cache (s6 := cachedSt s3 s0.graph cc6) Pp hfl
-        ((minGe_iff _ _).mp hge) rfl cc1 cc6 hc1 rfl hdr
-      refine ⟨i6, hs6 _, hle, ?_, hlink _ ⟨[], by simp [cachedSt]⟩⟩
-      cases A.cur_val with
-      | inl hc => exact Or.inl ⟨hc, Or.inl hcorr⟩
-      | inr hc => exact Or.inr ⟨hc, hcorr, hlow hc⟩
+      have Pp : Popped s0 s1 { keptSt s3 s0.graph with cache := some cc1 } :=
+        ⟨hslen, hsget, hc1.symm, R3.oracle, R3.oracleDefault, R3.interrupted⟩
+      obtain ⟨i6, hs6, hcorr⟩ := A.finish_discard (s6 := { keptSt s3 s0.graph with cache := some cc1 }) Pp hfl'
+        ((minGe_iff _ _).mp hge) rfl
+      exact ⟨i6, hs6 _, hle, hfact _ R3.interrupted hcorr, hlink _ ⟨[], by simp [keptSt]⟩⟩
+    · have hint' : s3.interrupted = false := by cases hh : s3.interrupted <;> simp_all
+      have hni : s1.interrupted = false := by rw [← R3.interrupted]; exact hint'
+      have hne : cur ≠ .ambig := fun e => by rw [A.amb e] at hni; cases hni
+      have hnew : new3 = new := by
+        cases hcase with
+        | inl h1 => exact h1.1
+        | inr h1 => exact absurd h1.2 hne
+      subst hnew
+      have hand : (cfg.fixF3 && s3.interrupted) = false := by rw [hint']; simp
+      simp only [hge, if_true, hc3, hand, Bool.false_eq_true, if_false, moveToCache,
+        List.drop_left, List.take_left] at h
+      cases hdr : drainToCache s0.graph.length ((⟨g, cur, none, sub⟩ : Node) :: new3) cc1 with
+      | error site => rw [hdr] at h; cases h
+      | ok cc6 =>
+        rw [hdr] at h
+        simp only [Res.ok.injEq, Prod.mk.injEq] at h
+        obtain ⟨⟨hv, hm'⟩, hs'⟩ := h
+        subst hv; subst hm'; subst hs'
+        have Pp : Popped s0 s1 { cachedSt s3 s0.graph cc6 with cache := s1.cache } :=
+          ⟨hslen, hsget, rfl, R3.oracle, R3.oracleDefault, R3.interrupted⟩
+        obtain ⟨i6, hs6, hcorr⟩ := A.finish_cache (s6 := cachedSt s3 s0.graph cc6) Pp (hfl' hne)
+          ((minGe_iff _ _).mp hge) rfl cc1 cc6 hc1 rfl hdr hni
+        exact ⟨i6, hs6 _, hle, hfact _ R3.interrupted (fun _ => hcorr), hlink _ ⟨[], by simp [cachedSt]⟩⟩
   · obtain ⟨l, hl, hlt⟩ := not_minGe hge
     simp only [hge, Bool.false_eq_true, if_false, Res.ok.injEq, Prod.mk.injEq] at h
     obtain ⟨⟨hv, hm'⟩, hs'⟩ := h
     subst hv; subst hm'; subst hs'
-    have Pp : Popped s0 s1 (keptSt s3 (s0.graph ++ (⟨g, cur, none, sub⟩ : Node) :: new)) :=
+    have Pp : Popped s0 s1 (keptSt s3 (s0.graph ++ (⟨g, cur, none, sub⟩ : Node) :: new3)) :=
       ⟨hslen, hsget, R3.cache, R3.oracle, R3.oracleDefault, R3.interrupted⟩
-    obtain ⟨i5, hs5⟩ := A.finish_keep Pp hfl l hl hlt rfl
+    have hkeep : Inv inst P dom lvl fx (keptSt s3 (s0.graph ++ (⟨g, cur, none, sub⟩ : Node) :: new3)) ∧
+        Step inst P s0 (keptSt s3 (s0.graph ++ (⟨g, cur, none, sub⟩ : Node) :: new3)) sub := by
+      cases hcase with
+      | inl h1 =>
+        obtain ⟨e, hfl⟩ := h1
+        subst e
+        exact A.finish_keep Pp hfl l hl hlt rfl
+      | inr h1 =>
+        obtain ⟨e, hca⟩ := h1
+        subst e; subst hca
+        exact A.finish_keep_amb rfl Pp l hl hlt rfl
+    obtain ⟨i5, hs5⟩ := hkeep
     refine ⟨i5, hs5.weaken (updateFrom_le_right m sub), hle, ?_, hlink _ ⟨_, rfl⟩⟩
-    cases A.cur_val with
-    | inl hc =>
-      refine Or.inl ⟨hc, Or.inr ⟨s0.graph.length, _, mid_at _ _ _, rfl, rfl, hc.symm, ?_,
+    rcases A.cur_val with hc | hc | hc
+    · refine Or.inl ⟨hc, Or.inr ⟨s0.graph.length, _, mid_at _ _ _, rfl, rfl, hc.symm, ?_,
         fun d hd => by cases hd⟩⟩
       refine (updateFrom_le_right m sub).trans ?_
       rw [hl]
       exact Nat.le_of_lt hlt
-    | inr hc => exact Or.inr ⟨hc, A.cur_holds hc, hlow hc⟩
+    · exact Or.inr (Or.inl ⟨hc, A.cur_holds hc, hlow hc⟩)
+    · exact Or.inr (Or.inr ⟨hc, by
+        show s3.interrupted = true
+        rw [R3.interrupted]; exact A.amb hc⟩)
 
 theorem Step.of_work {s s' : St} {w : Nat} {lb : Min} (h : Step inst P { s with work := w } s' lb) :
     Step inst P s s' lb :=
-  ⟨h.graph, h.stack, h.cacheExt, h.ext, h.low, h.cacheMode⟩
+  ⟨h.graph, h.stack, h.cacheExt, h.ext, h.low, h.cacheMode, h.intr, h.quiet⟩
 
 theorem Fact.of_work {s s' : St} {w : Nat} {m' : Min} {g : Nat} {v : V}
     (h : Fact inst P { s with work := w } s' m' g v) : Fact inst P s s' m' g v := h
 
 /-- what a node found in the graph reports -/
-theorem hit_fact {s : St} (hi : Inv inst P dom lvl s) {g dfn : Nat} {node : Node} (hn : s.graph[dfn]? = some node)
+theorem hit_fact {s : St} (hi : Inv inst P dom lvl fx s) {g dfn : Nat} {node : Node} (hn : s.graph[dfn]? = some node)
     (hgo : node.goal = g) {s' : St} {m' : Min} (hpre : s'.graph = s.graph)
+    (hint : s'.interrupted = s.interrupted)
     (hfl : ∀ d, node.stackDepth = some d → flagAt s'.stack d) (l : Nat) (hlk : node.links = some l)
     (hl : l ≤ dfn) (hm' : MinLe m' node.links) : Fact inst P s s' m' g node.solution := by
   subst hgo
-  cases hi.val dfn node hn with
-  | inl ht' =>
-    refine Or.inl ⟨ht', Or.inr ⟨dfn, node, by rw [hpre]; exact hn, rfl, rfl, ht'.symm, ?_, hfl⟩⟩
+  rcases hi.val dfn node hn with ht' | hb | ha
+  · refine Or.inl ⟨ht', Or.inr ⟨dfn, node, by rw [hpre]; exact hn, rfl, rfl, ht'.symm, ?_, hfl⟩⟩
     refine hm'.trans ?_
     rw [hlk]; exact hl
-  | inr hb =>
-    exact Or.inr ⟨hb, hi.approx dfn node hn hb,
-      hi.not_inG_of_bot (Or.inr ⟨dfn, node, hn, rfl, hb⟩)⟩
+  · exact Or.inr (Or.inl ⟨hb, hi.approx dfn node hn hb,
+      hi.not_inG_of_bot (Or.inr ⟨dfn, node, hn, rfl, hb⟩)⟩)
+  · exact Or.inr (Or.inr ⟨ha, by rw [hint]; exact hi.amb dfn node hn ha⟩)
 
 /-- PARTIAL CORRECTNESS of `solve_goal` -/
-theorem solveGoal_sem (hyp : MHyp inst P dom lvl) :
-    ∀ d, SubSpec inst P dom lvl (solveGoal inst cfg d)
+theorem solveGoal_sem (hyp : MHyp inst P dom lvl) (h3 : cfg.fixF3 = true) (h10 : fx = true → cfg.fixF10 = true) :
+    ∀ d, SubSpec inst P dom lvl fx (solveGoal inst cfg d)
   | 0 => by
     intro g m s v m' s' _ _ _ h
     simp [solveGoal] at h
@@ -159,7 +196,7 @@ theorem solveGoal_sem (hyp : MHyp inst P dom lvl) :
     | ok u s0 =>
       have e0 := tick_ok cfg s s0 ht
       subst e0
-      have i0 : Inv inst P dom lvl { s with work := s.work + 1 } := hi.work _
+      have i0 : Inv inst P dom lvl fx { s with work := s.work + 1 } := hi.work _
       cases hc : cacheLookup ({ s with work := s.work + 1 } : St) g with
       | some w =>
         rw [solveGoal_cached inst cfg d g m s _ w ht hc] at h
@@ -169,11 +206,11 @@ theorem solveGoal_sem (hyp : MHyp inst P dom lvl) :
         refine ⟨i0, Step.work s _ _, MinLe.refl _, ?_, Or.inl rfl⟩
         have hin : InCache s g w := (inCache_iff_lookup _ g w).mpr hc
         have hh := hi.cacheOK g w hin
-        by_cases e : w = topOf inst g
+        rcases hi.defVal (Or.inl hin) with e | e | e
         · exact Or.inl ⟨e, Or.inl hh⟩
-        · have e' : w = botOf inst g := (hi.defVal (Or.inl hin)).resolve_left e
-          refine Or.inr ⟨e', hh, hi.not_inG_of_bot (Or.inl ?_)⟩
-          rw [← e']; exact hin
+        · refine Or.inr (Or.inl ⟨e, hh, hi.not_inG_of_bot (Or.inl ?_)⟩)
+          rw [← e]; exact hin
+        · rw [e] at hh; exact hh.elim
       | none =>
         cases hl : lookup ({ s with work := s.work + 1 } : St).graph g with
         | some dfn =>
@@ -186,7 +223,7 @@ theorem solveGoal_sem (hyp : MHyp inst P dom lvl) :
             subst hv; subst hm'; subst hs'
             obtain ⟨l, hlk, hll⟩ := i0.nonstk dfn node hn hsd
             refine ⟨i0, Step.work s _ _, updateFrom_le_left _ _, ?_, ?_⟩
-            · exact Fact.of_work (hit_fact i0 hn hgo rfl (fun d' hd' => by rw [hsd] at hd'; cases hd') l hlk
+            · exact Fact.of_work (hit_fact i0 hn hgo rfl rfl (fun d' hd' => by rw [hsd] at hd'; cases hd') l hlk
                 (Nat.le_of_lt hll) (updateFrom_le_right m node.links))
             · cases updateFrom_cases m node.links with
               | inl e => exact Or.inl e
@@ -198,7 +235,7 @@ theorem solveGoal_sem (hyp : MHyp inst P dom lvl) :
             obtain ⟨hdl, hlk⟩ := i0.stk dfn node depth hn hsd
             have hnle : ¬ ({ s with work := s.work + 1 } : St).stack.length ≤ depth := Nat.not_le.mpr hdl
             have hext := stackExt_setCycle_true depth s.stack
-            have i1 : Inv inst P dom lvl
+            have i1 : Inv inst P dom lvl fx
                 { ({ s with work := s.work + 1 } : St) with stack := setCycle true depth s.stack } :=
               i0.stackChange rfl ⟨rfl, rfl, rfl, rfl⟩ hext
             have hmix : mixedFrom (setCycle true depth ({ s with work := s.work + 1 } : St).stack) depth = false :=
@@ -213,7 +250,7 @@ theorem solveGoal_sem (hyp : MHyp inst P dom lvl) :
                 (s' := { ({ s with work := s.work + 1 } : St) with stack := setCycle true depth s.stack })
                 rfl ⟨rfl, rfl, rfl, rfl⟩ hext _
             refine ⟨i1, Step.of_work hst, updateFrom_le_left _ _, ?_, ?_⟩
-            · refine Fact.of_work (hit_fact i0 hn hgo rfl (fun d' hd' => ?_) dfn hlk (Nat.le_refl _)
+            · refine Fact.of_work (hit_fact i0 hn hgo rfl rfl (fun d' hd' => ?_) dfn hlk (Nat.le_refl _)
                 (updateFrom_le_right m node.links))
               rw [hsd] at hd'
               cases hd'
@@ -242,9 +279,9 @@ theorem solveGoal_sem (hyp : MHyp inst P dom lvl) :
             | panic site s3 => rw [hloop] at h; cases h
             | ok sub s3 =>
               rw [hloop] at h
-              have hp := loop_sem hyp (solveGoal_sem hyp d) cfg.rounds _ sub s3
+              have hp := loop_sem hyp h3 h10 (solveGoal_sem hyp h3 h10 d) cfg.rounds _ sub s3
                 (push_loopSt hyp i0 hu hg hbel) hloop
-              obtain ⟨i', hs', hle', hf', hk'⟩ := finishGoal_sem hp m v m' s' h
+              obtain ⟨i', hs', hle', hf', hk'⟩ := finishGoal_sem h3 hp m v m' s' h
               exact ⟨i', Step.of_work hs', hle', Fact.of_work hf', hk'⟩
 
 end
